@@ -422,7 +422,7 @@ def apply_gufunc(
     ### Assert correct partitioning, for case:
     for dim, sizes in dimsizess.items():
         #### Check that the arrays have same length for same dimensions or dimension `1`
-        if set(sizes) | {1} != {1, max(sizes)}:
+        if len(set(sizes) - {1}) > 1:
             raise ValueError(f"Dimension `'{dim}'` with different lengths in arrays")
         if not allow_rechunk:
             chunksizes = chunksizess[dim]
